@@ -32,7 +32,8 @@ package expr
 //@   requires ctx != nil
 //@   defines res == evalRes(e, ctx.ExternalConstants, ctx.Now, input)
 //@   defines err == evalErr(e, ctx.ExternalConstants, ctx.Now, input)
-//@   ensures err == nil ==> validColl(res)
+//@   ensures err == nil ==> validColl(res) && validSysColl(res)
+//@   ensures err == nil ==> forall k int :: 0 <= k && k < len(res) && !isPrimS(res[k]) ==> implements(res[k], fhir.Base)
 //@   assigns ctx.LastResult, ctx.BeforeLastResult
 //
 //@ func (c *Context) Clone() (res)
@@ -195,4 +196,51 @@ package expr
 //@   ensures ixerr == nil && len(ix) == 1 && fromOk(ix[0]) && isInteger(v) && 0 <= intOf(v) && intOf(v) < len(input) ==> err == nil && len(res) == 1 && res[0] == input[intOf(v)]
 //@   ensures ixerr == nil && len(ix) == 1 && fromOk(ix[0]) && isInteger(v) && (intOf(v) < 0 || intOf(v) >= len(input)) ==> err == nil && len(res) == 0
 //@   ensures ixerr == nil && len(ix) == 1 && fromOk(ix[0]) && !isInteger(v) ==> is(err, ErrInvalidType)
+//@   assigns nothing
+//
+// ---- C05: = and != on collections; < <= > >= on single items ---------------------------------
+// Two collections are equal iff same length and every pair of items equal; an empty operand,
+// or a pair whose comparison is empty (precision / unit mismatch), gives empty; != negates.
+//@ func (e *EqualityExpression) Evaluate(ctx, input) (res, err)
+//@   requires e != nil && ctx != nil && e.Left != nil && e.Right != nil
+//@   let K = ctx.ExternalConstants
+//@   let N = ctx.Now
+//@   let l = evalRes(e.Left, K, N, input)
+//@   let r = evalRes(e.Right, K, N, input)
+//@   let lerr = evalErr(e.Left, K, N, input)
+//@   let rerr = evalErr(e.Right, K, N, input)
+//@   let ok = lerr == nil && rerr == nil && len(l) > 0 && len(r) > 0
+//@   let allEq = len(l) == len(r) && (forall k int :: 0 <= k && k < len(l) ==> itemEq3(l[k], r[k]) == 0)
+//@   ensures lerr != nil || rerr != nil ==> err != nil
+//@   ensures lerr == nil && rerr == nil && (len(l) == 0 || len(r) == 0) ==> err == nil && len(res) == 0
+//@   ensures ok ==> err == nil && len(res) <= 1
+//@   ensures ok && allEq ==> collTV(res) == ite(e.Not, TV_F, TV_T)
+//@   ensures ok && !allEq && len(res) == 1 ==> collTV(res) == ite(e.Not, TV_T, TV_F)
+//@   ensures ok && len(res) == 0 ==> (exists k int :: 0 <= k && k < len(l) && itemEq3(l[k], r[k]) == 2)
+//@   assigns nothing
+//
+// Ordering against the reference comparison cmp3 of the two single items (as System values):
+// `a < b` iff cmp3 == LT, `a > b` iff GT, `a <= b` iff not GT, `a >= b` iff not LT; empty when
+// the comparison is empty (precision or unit mismatch) or an operand is empty.
+//@ func (e *ComparisonExpression) Evaluate(ctx, input) (res, err)
+//@   requires e != nil && ctx != nil && e.Left != nil && e.Right != nil
+//@   let K = ctx.ExternalConstants
+//@   let N = ctx.Now
+//@   let l = evalRes(e.Left, K, N, input)
+//@   let r = evalRes(e.Right, K, N, input)
+//@   let lerr = evalErr(e.Left, K, N, input)
+//@   let rerr = evalErr(e.Right, K, N, input)
+//@   let a = fromS(l[0])
+//@   let b = fromS(r[0])
+//@   let ok = lerr == nil && rerr == nil && len(l) == 1 && len(r) == 1 && fromOk(l[0]) && fromOk(r[0])
+//@   instantiate ok ==> cmpNormTwice(a, b)
+//@   ensures lerr != nil || rerr != nil ==> err != nil
+//@   ensures lerr == nil && rerr == nil && (len(l) == 0 || len(r) == 0) ==> err == nil && len(res) == 0
+//@   ensures lerr == nil && rerr == nil && len(l) > 0 && len(r) > 0 && (len(l) > 1 || len(r) > 1) ==> is(err, ErrNotSingleton)
+//@   ensures ok && cmp3(a, b) == CMP_EMPTY ==> err == nil && len(res) == 0
+//@   ensures ok && cmp3(a, b) == CMP_ERR ==> err != nil
+//@   ensures ok && cmp3(a, b) != CMP_EMPTY && cmp3(a, b) != CMP_ERR && e.Op == Lt ==> err == nil && collTV(res) == ite(cmp3(a, b) == CMP_LT, TV_T, TV_F)
+//@   ensures ok && cmp3(a, b) != CMP_EMPTY && cmp3(a, b) != CMP_ERR && e.Op == Gt ==> err == nil && collTV(res) == ite(cmp3(a, b) == CMP_GT, TV_T, TV_F)
+//@   ensures ok && cmp3(a, b) != CMP_EMPTY && cmp3(a, b) != CMP_ERR && e.Op == Lte ==> err == nil && collTV(res) == ite(cmp3(a, b) != CMP_GT, TV_T, TV_F)
+//@   ensures ok && cmp3(a, b) != CMP_EMPTY && cmp3(a, b) != CMP_ERR && e.Op == Gte ==> err == nil && collTV(res) == ite(cmp3(a, b) != CMP_LT, TV_T, TV_F)
 //@   assigns nothing
